@@ -53,6 +53,25 @@ type c18Scenario struct {
 	// Before: another document was analysed first whose own include tree (a file
 	// outside every other tree) declares the accounts and commodities this one uses
 	Before bool `json:"other_document_analysed_first"`
+	// Via: how the final texts were reached. "" = documents opened with them;
+	// "edit-cur" = the current file was first open (and analysed) without its
+	// declaration lines, then changed to the final text; "edit-sib" = the same for
+	// the sibling file, after which the current file is analysed again
+	Via string `json:"via,omitempty"`
+}
+
+// c18WithoutDeclarations replaces the declarations by declarations of other names (same line count).
+func c18WithoutDeclarations(text string) string {
+	lines := strings.Split(text, "\n")
+	for i, l := range lines {
+		// other declarations instead of none: a cached set stays non-empty
+		if strings.HasPrefix(l, "account ") {
+			lines[i] = fmt.Sprintf("account elsewhere:e%d", i)
+		} else if strings.HasPrefix(l, "commodity ") {
+			lines[i] = "commodity 1.000,00 ZZZ"
+		}
+	}
+	return strings.Join(lines, "\n")
 }
 
 // commodity shapes of transaction 2: list of (amount commodity, cost commodity, assertion commodity) per posting
@@ -178,6 +197,12 @@ func (sc c18Scenario) features() string {
 	if sc.Before {
 		before = ", after another document whose include tree declares the names"
 	}
+	switch sc.Via {
+	case "edit-cur":
+		before += ", declarations added to the current file by an edit"
+	case "edit-sib":
+		before += ", declarations added to the sibling file by an edit"
+	}
 	return fmt.Sprintf("accounts declared in %s, commodities declared in %s, %s%s", sc.AccDecl, sc.CommDecl, root, before)
 }
 
@@ -186,6 +211,13 @@ func c18Run(c *core.Ctx, dir string, sc c18Scenario) {
 	_ = os.RemoveAll(dir)
 	_ = os.MkdirAll(dir, 0o755)
 	writeFiles(dir, files)
+	// with an edit history the saved files are the earlier versions
+	switch sc.Via {
+	case "edit-cur":
+		writeFiles(dir, map[string]string{"cur.journal": c18WithoutDeclarations(cur)})
+	case "edit-sib":
+		writeFiles(dir, map[string]string{"sib.journal": c18WithoutDeclarations(files["sib.journal"])})
+	}
 	s := wire.New()
 	root := ""
 	if sc.Root {
@@ -207,7 +239,20 @@ func c18Run(c *core.Ctx, dir string, sc c18Scenario) {
 		ou := wire.URI(filepath.Join(dir, "other.journal"))
 		s.DidOpen(ou, other)
 	}
-	s.DidOpen(uri, cur)
+	switch sc.Via {
+	case "edit-cur":
+		s.DidOpen(uri, c18WithoutDeclarations(cur))
+		s.DidChangeFull(uri, cur, 2)
+	case "edit-sib":
+		su := wire.URI(filepath.Join(dir, "sib.journal"))
+		s.DidOpen(su, c18WithoutDeclarations(files["sib.journal"]))
+		s.DidChangeFull(su, c18WithoutDeclarations(files["sib.journal"]), 2)
+		s.DidOpen(uri, cur)
+		s.DidChangeFull(su, files["sib.journal"], 2)
+		s.DidChangeFull(uri, cur, 2)
+	default:
+		s.DidOpen(uri, cur)
+	}
 	raw := s.Client.Last(uri)
 	c.Res.Evaluations++
 	if sc.AccDecl == "inc" || sc.AccDecl == "sib" || sc.CommDecl == "inc" || sc.CommDecl == "sib" || !sc.SetAcc || !sc.SetComm {
@@ -356,6 +401,19 @@ func checkC18(c *core.Ctx) {
 							}
 							sc := c18Scenario{AccDecl: ad, CommDecl: cd, Root: root, SetAcc: mask&1 != 0, SetComm: mask&2 != 0, SetUnbal: mask&4 != 0, Postings: ps, CommShape: sh}
 							c18Run(c, dir, sc)
+							if mask == 7 || c.Thorough() {
+								// the same final texts reached by an edit that adds the declarations
+								if ad == "cur" || cd == "cur" {
+									e := sc
+									e.Via = "edit-cur"
+									c18Run(c, dir, e)
+								}
+								if root && (ad == "sib" || cd == "sib") {
+									e := sc
+									e.Via = "edit-sib"
+									c18Run(c, dir, e)
+								}
+							}
 							if mask == 7 || c.Thorough() {
 								// the same scenario in a server that analysed another document first
 								sc.Before = true
